@@ -16,6 +16,6 @@ git apply "$d/patch.diff" || { echo "APPLY-FAIL" | tee -a "$log"; exit 1; }
 PYTHONPATH="$wt" /venv/bin/python -c "import joblib" >>"$log" 2>&1 || { echo "IMPORT-FAIL" | tee -a "$log"; exit 1; }
 echo "## changed tree demo" >>"$log"; run_demo; c1=$?
 echo "## tests with the change: ${*:-full suite}" >>"$log"
-(cd "$wt" && timeout 3000 /venv/bin/python -m pytest -q -p no:cacheprovider --timeout=900 --continue-on-collection-errors ${*:-} 2>&1 | grep -aE "^(FAILED|ERROR) |[0-9]+ (passed|failed)" | sed 's/\x1b\[[0-9;]*m//g' | tail -8 >>"$log"); 
+(cd "$wt" && timeout 3000 /venv/bin/python -m pytest -q -p no:cacheprovider --basetemp=.bt --timeout=900 --continue-on-collection-errors ${*:-} 2>&1 | grep -aE "^(FAILED|ERROR) |[0-9]+ (passed|failed)" | sed 's/\x1b\[[0-9;]*m//g' | tail -8 >>"$log"); 
 tests=$(grep -aE "[0-9]+ (passed|failed)" "$log" | tail -1)
 echo "RESULT demo_clean=$c0 demo_changed=$c1 tests: $tests" | tee -a "$log"
